@@ -22,6 +22,7 @@ EXPLANATION = (
     "facts read from src/lib/crypto.pl by plread; RF9 base64 option table."
 )
 ASSUMPTIONS = ["sha3, blake2, ripemd, ring and base64 crates implement the named algorithms correctly"]
+DEFAULT_CONFIG_ONLY = True   # half of the algorithm arms exist only with the crypto-full feature (ring)
 
 ALG_RX = re.compile(r"(sha3_?\d{3}|sha_?\d{3}(?:_\d{3})?|blake2[sb]_?\d{3}|ripemd_?\d{3})", re.I)
 
